@@ -1077,7 +1077,21 @@ pub enum AppearanceStreamEntry {
 impl Object for AppearanceStreamEntry {
     fn from_primitive(p: Primitive, resolve: &impl Resolve) -> Result<Self> {
         match p.resolve(resolve)? {
-            p @ Primitive::Dictionary(_) => Object::from_primitive(p, resolve).map(AppearanceStreamEntry::Dict),
+            // an appearance subdictionary maps state names to appearance streams, it does not nest
+            // (and its values could otherwise lead back to the dictionary itself)
+            Primitive::Dictionary(dict) => {
+                let mut states = HashMap::new();
+                for (key, val) in dict.iter() {
+                    match val.clone().resolve(resolve)? {
+                        p @ Primitive::Stream(_) => {
+                            states.insert(key.clone(), AppearanceStreamEntry::Single(Object::from_primitive(p, resolve)?));
+                        }
+                        Primitive::Null => {}
+                        p => return Err(PdfError::UnexpectedPrimitive {expected: "Stream", found: p.get_debug_name()})
+                    }
+                }
+                Ok(AppearanceStreamEntry::Dict(states))
+            }
             p @ Primitive::Stream(_) => Object::from_primitive(p, resolve).map(AppearanceStreamEntry::Single),
             p => Err(PdfError::UnexpectedPrimitive {expected: "Dict or Stream", found: p.get_debug_name()})
         }
